@@ -227,4 +227,73 @@ AlgoValues(kind, W, head, blocks, req, n) ==
       [] kind = "proxy" -> ProxyValues(W, head, blocks, req, n)
 Sources(kind, head, blocks) ==
     CASE kind = "tsdb" -> {head} [] kind = "bucket" -> blocks [] kind = "proxy" -> {head} \cup blocks
+(***************************************************************************)
+(* Phase 2: the other StoreAPI implementations behind the same contracts.  *)
+(*   prom  store.PrometheusStore (sidecar) in front of the Prometheus HTTP *)
+(*         API over the head: remote read (streamed chunks, or the old     *)
+(*         sampled response), /series for SkipChunks, /labels and          *)
+(*         /label/<n>/values (with matchers only for Prometheus >= 2.24,   *)
+(*         otherwise derived from /series)                                 *)
+(*   recv  the receiver: one TSDBStore per tenant (external labels = the   *)
+(*         receiver's labels overridden by tenant-label = tenant id)       *)
+(*         behind a ProxyStore without deduplication                       *)
+(* opt = [skip |-> SkipChunks, samples |-> sampled remote read,            *)
+(*        pmatch |-> Prometheus label calls support matchers]              *)
+(***************************************************************************)
+TenantExt(E, tl, id) == [ n \in DOMAIN E \cup {tl} |-> IF n = tl THEN id ELSE E[n] ]
+
+(* a sample (not just a chunk) inside the range: what a sampled remote read returns *)
+SeriesHasSampleInRange(W, s, mint, maxt) ==
+    \E k \in s.slots : (mint <= ChunkMin(W, k) /\ ChunkMin(W, k) <= maxt) \/ (mint <= ChunkMax(W, k) /\ ChunkMax(W, k) <= maxt)
+
+PromSelect(W, src, ms1, req, opt) ==
+    IF opt.samples /\ ~opt.skip
+      THEN { s \in MatchStored(src, ms1) : SeriesHasSampleInRange(W, s, req.mint, req.maxt) }
+      ELSE SelectStored(W, src, ms1, req.mint, req.maxt)
+PromSeries(W, src, req, opt) ==
+    IF Contradicts(req.ms, src.ext) THEN [kind |-> "ok", out |-> {}]
+    ELSE IF FilterExt(req.ms, src.ext) = {} THEN [kind |-> "invalid", out |-> {}]
+    ELSE [kind |-> "ok",
+          out |-> { AlgoPresent(s.l, src.ext, req.rl) : s \in PromSelect(W, src, FilterExt(req.ms, src.ext), req, opt) }]
+PromNames(W, src, req, opt) ==
+    IF Contradicts(req.ms, src.ext) THEN {}
+    ELSE LET ms1 == FilterExt(req.ms, src.ext)
+             res == IF ms1 = {} \/ opt.pmatch
+                      THEN (IF SrcOverlaps(W, src, req.mint, req.maxt) THEN StoredNames(MatchStored(src, ms1)) ELSE {})
+                      ELSE StoredNames(SelectStored(W, src, ms1, req.mint, req.maxt))     \* via /series
+         IN IF res = {} THEN {} ELSE res \cup (DOMAIN src.ext \ req.rl)
+PromValues(W, src, req, n, opt) ==
+    IF n \in req.rl \/ Contradicts(req.ms, src.ext) THEN {}
+    ELSE LET ms1 == FilterExt(req.ms, src.ext) IN
+         IF n \in DOMAIN src.ext
+           THEN IF ms1 = {} \/ SelectStored(W, src, ms1, req.mint, req.maxt) # {} THEN {src.ext[n]} ELSE {}
+           ELSE IF ms1 = {} \/ opt.pmatch
+                  THEN (IF SrcOverlaps(W, src, req.mint, req.maxt) THEN StoredValues(MatchStored(src, ms1), n) ELSE {})
+                  ELSE StoredValues(SelectStored(W, src, ms1, req.mint, req.maxt), n)
+
+(* receiver: the proxy needs a matcher; every tenant store answers like a TSDB store *)
+RecvSeries(W, tenants, req) ==
+    IF req.ms = {} THEN [kind |-> "invalid", out |-> {}]
+    ELSE [kind |-> "ok", out |-> UNION { TsdbSeries(W, t, req).out : t \in tenants }]
+RecvNames(W, tenants, req) == UNION { TsdbNames(W, t, req) : t \in tenants }
+RecvValues(W, tenants, req, n) ==
+    UNION { IF ProxyAsksHead(W, t, req) THEN TsdbValues(W, t, req, n) ELSE {} : t \in tenants }
+
+(* world record wd = [W, head, blocks, tenants]; entry points for all five store kinds *)
+AlgoSeriesW(kind, wd, req, opt) ==
+    CASE kind = "prom" -> PromSeries(wd.W, wd.head, req, opt)
+      [] kind = "recv" -> RecvSeries(wd.W, wd.tenants, req)
+      [] OTHER -> AlgoSeries(kind, wd.W, wd.head, wd.blocks, req)
+AlgoNamesW(kind, wd, req, opt) ==
+    CASE kind = "prom" -> PromNames(wd.W, wd.head, req, opt)
+      [] kind = "recv" -> RecvNames(wd.W, wd.tenants, req)
+      [] OTHER -> AlgoNames(kind, wd.W, wd.head, wd.blocks, req)
+AlgoValuesW(kind, wd, req, n, opt) ==
+    CASE kind = "prom" -> PromValues(wd.W, wd.head, req, n, opt)
+      [] kind = "recv" -> RecvValues(wd.W, wd.tenants, req, n)
+      [] OTHER -> AlgoValues(kind, wd.W, wd.head, wd.blocks, req, n)
+SourcesW(kind, wd) ==
+    CASE kind = "prom" -> {wd.head}
+      [] kind = "recv" -> wd.tenants
+      [] OTHER -> Sources(kind, wd.head, wd.blocks)
 =============================================================================
